@@ -7,3 +7,6 @@ fp("dask/array/reductions.py", "_arg_combine", "arg_chunk", "arg_reduction", "pr
    "_cumreduction_carry", "cumreduction", "topk", "argtopk", "chunk_min", "chunk_max", "_empty_along",
    "mean_chunk", "mean_combine", "mean_agg", "moment_combine", "moment_agg")
 fp("dask/array/chunk.py", "topk", "topk_aggregate", "argtopk", "argtopk_aggregate")
+
+# C32
+fp("dask/array/percentile.py", "_percentile", "percentile", "merge_percentiles", "nanpercentile")
